@@ -39,6 +39,7 @@ WEIGHTS = {
     'reopen': 3,
     'reinit': 1,
     'addpack_off': 2,
+    'addfail': 2,
 }
 
 
